@@ -344,12 +344,12 @@ impl Sync for CopiaSync {
         delta: &Delta,
         mut output: W,
     ) -> Result<()> {
-        // Invariant: expected output matches source size
-        debug_assert_eq!(
-            delta.expected_output_size(),
-            delta.source_size,
-            "expected output size must equal source size"
-        );
+        // A delta is untrusted input: op lengths that do not add up to the
+        // declared source size mean it was damaged, which is an error to report,
+        // not an invariant to assert (a debug build would otherwise abort here).
+        if delta.expected_output_size() != delta.source_size {
+            return Err(CopiaError::CorruptedDelta);
+        }
 
         // Validate delta first
         delta.validate()?;
